@@ -86,6 +86,24 @@
 (* un-reset when encoding fails): the next event that draws the buffer is  *)
 (* garbled (token `bad`) - TLC must refute NoGarbage (MC_StreamHist_shared).*)
 (*                                                                         *)
+(* SERVER-SIDE CANCELLATION (round 4).  Deadline: the request context ends  *)
+(* while the handler is still running and the client is still connected   *)
+(* and reading (a context.WithTimeout / WithCancel middleware around       *)
+(* handler.Server, a deadline, BaseContext cancelled on shutdown).  It is  *)
+(* NOT a disconnect: disc stays FALSE, so everything the operation still   *)
+(* produces - an operation may well answer after its context is done: a    *)
+(* query whose resolvers ignore ctx, a subscription whose last payload     *)
+(* reports the cancellation - must be delivered, and `complete` / the      *)
+(* closing boundary must follow (SseComplete, MmComplete: every payload    *)
+(* the source PRODUCED, got, is on the wire).  The source may also end     *)
+(* early once its context is done (MRecvNil / MMRecvNil).                  *)
+(*   KACloseOnDone = FALSE  the code as it is: keepAlive's `<-ctx.Done()`  *)
+(*         branch stops the ticker and returns, nothing else               *)
+(*   KACloseOnDone = TRUE   deviating design: that branch calls close()    *)
+(*         (closed = true under mu): every later c.write drops its event   *)
+(*         (MWriteDropped) and `complete` is suppressed - TLC must refute  *)
+(*         SseComplete (MC_Stream_kaclose.cfg).                            *)
+(*                                                                         *)
 (* The sink is what the CLIENT sees (nothing is appended after a client    *)
 (* disconnect).  The property (C12) is stated over the sink: NoSplice,     *)
 (* PreFirst, InOrder, CompleteLast, SseComplete / MmFramed, MmOrder,       *)
@@ -105,6 +123,8 @@ CONSTANTS
   FailSet,     \* positions of the payload whose serialization fails that a request may choose; 0 = none
   MaxReq,      \* requests served one after the other by the same handler (history length)
   SharedBuf,   \* deviating design: serialization scratch shared between the requests of a handler
+  Deadl,       \* BOOLEAN: may the request context be cancelled SERVER-SIDE (client still connected) while the handler runs?
+  KACloseOnDone, \* deviating design: keepAlive's ctx.Done branch marks the connection closed (close()) instead of only stopping the ticker
   MmEncodeInAdd \* TRUE = a4760cc: multipart encodes in Add (handler goroutine), Done waits for the ticker goroutine; FALSE = before
 
 VARIABLES
@@ -175,6 +195,7 @@ Failing == mtok.k \in {"next", "bad"} /\ mtok.id = failAt
 \* main: one w.Write call begins
 MWriteBegin ==
   /\ kind = "sse" /\ mpc = "w0" /\ ~Failing
+  /\ ~(StopKA /\ kastop)        \* c.write / the `complete` section: nothing is written on a closed connection (MWriteDropped)
   /\ LockWrites => mu = "free"
   /\ mu' = (IF LockWrites THEN "main" ELSE mu)
   /\ acc' = acc \cup {"main"}
@@ -183,6 +204,15 @@ MWriteBegin ==
   /\ sink' = Emit(<<Seg("B", mtok)>>)
   /\ mpc' = "w1"
   /\ UNCHANGED <<hvars, kind, n, ka, cancelled, disc, got, mtok, kpc, tick, nticks, fin, uaf, mmvars>>
+
+\* c.write on a connection that is already marked closed: mu.Lock; `if c.closed { return }` - the event is
+\* dropped, nothing is flushed (`complete`: `if !c.closed {...}` is skipped).  In the code as it is only the
+\* handler goroutine itself closes the connection, after its last write: unreachable.  Reachable with KACloseOnDone.
+MWriteDropped ==
+  /\ kind = "sse" /\ mpc = "w0" /\ StopKA /\ kastop
+  /\ mu = "free"
+  /\ mpc' = (CASE mtok.k = "pre" -> "startka" [] mtok.k \in {"next", "bad"} -> "reset" [] OTHER -> "close")
+  /\ UNCHANGED <<hvars, kind, n, ka, sink, cancelled, disc, got, mtok, mu, acc, dirty, kpc, tick, nticks, kastop, fin, uaf, mmvars>>
 
 MWriteEnd ==
   /\ kind = "sse" /\ mpc = "w1"
@@ -228,7 +258,8 @@ MRecv ==
   /\ mpc' = "w0"
   /\ UNCHANGED <<failAt, req, crashed, kind, n, ka, sink, cancelled, disc, mu, acc, dirty, kpc, tick, nticks, kastop, fin, uaf, mmvars>>
 
-\* responses(ctx) returns nil: the source is exhausted, or its context is done
+\* responses(ctx) returns nil: the source is exhausted, or its context is done (client gone, or cancelled
+\* server-side: Deadline) and it chooses to end - it may as well go on producing (MRecv stays enabled)
 MRecvNil ==
   /\ kind = "sse" /\ mpc = "recv" /\ (got = n \/ cancelled)
   /\ mtok' = STok("complete", 0)
@@ -257,6 +288,7 @@ MClose ==
 \* SharedBuf: the partial event stays behind in the shared scratch buffer.
 MEncodeFail ==
   /\ kind = "sse" /\ mpc = "w0" /\ Failing
+  /\ ~(StopKA /\ kastop)
   /\ LockWrites => mu = "free"
   /\ carry' = (carry \/ SharedBuf)
   /\ mtok' = STok("blob", 0)
@@ -351,12 +383,16 @@ KFlushEnd ==
   /\ UNCHANGED <<hvars, kind, n, ka, sink, cancelled, disc, mpc, got, mtok, dirty, tick, nticks, kastop, fin, uaf, mmvars>>
 
 \* keepAlive returns: <-ctx.Done() (select may also take a pending tick:
-\* KPingBegin stays enabled), or - repaired - the connection is closed
+\* KPingBegin stays enabled), or - repaired - the connection is closed.
+\* The code as it is: `c.keepAliveTicker.Stop(); return`.  KACloseOnDone (deviating design): the ctx.Done
+\* branch calls c.close(): mu.Lock; closed = true; ticker.Stop; mu.Unlock - although the handler may still be writing.
 KStop ==
   /\ kind = "sse" /\ kpc = "idle"
   /\ cancelled \/ (StopKA /\ kastop)
+  /\ (KACloseOnDone /\ cancelled) => mu = "free"
+  /\ kastop' = (kastop \/ (KACloseOnDone /\ cancelled))
   /\ kpc' = "stopped"
-  /\ UNCHANGED <<hvars, kind, n, ka, sink, cancelled, disc, mpc, got, mtok, mu, acc, dirty, tick, nticks, kastop, fin, uaf, mmvars>>
+  /\ UNCHANGED <<hvars, kind, n, ka, sink, cancelled, disc, mpc, got, mtok, mu, acc, dirty, tick, nticks, fin, uaf, mmvars>>
 
 \* net/http: the handler returned -> w.cancelCtx() -> w.finishRequest()
 ServerCancel ==
@@ -382,6 +418,13 @@ Disconnect ==
   /\ Disc /\ ~disc /\ mpc \notin {"returned", "dead"}
   /\ disc' = TRUE /\ cancelled' = TRUE
   /\ UNCHANGED <<hvars, kind, n, ka, sink, mpc, got, tick, nticks, ssevars, mmvars>>
+
+\* the request context is cancelled SERVER-SIDE while the handler is running: a deadline, a cancelling
+\* middleware around handler.Server, shutdown.  The client is still connected and reading (disc unchanged).
+Deadline ==
+  /\ Deadl /\ ~cancelled /\ mpc \notin {"returned", "dead"}
+  /\ cancelled' = TRUE
+  /\ UNCHANGED <<hvars, kind, n, ka, sink, disc, mpc, got, tick, nticks, ssevars, mmvars>>
 
 \* ------------------------------------------------------ multipart/mixed --
 HN(id) == IF id < n THEN "t" ELSE "f"       \* payload 0 = initial, 1..n incremental; the last one says hasNext:false
@@ -493,18 +536,18 @@ NextRequest ==
 
 \* -------------------------------------------------------------------------
 SseNext ==
-  \/ MWriteBegin \/ MWriteEnd \/ MFlushBegin \/ MFlushEnd \/ MStartKA \/ MRecv \/ MRecvNil \/ MReset \/ MClose
+  \/ MWriteBegin \/ MWriteDropped \/ MWriteEnd \/ MFlushBegin \/ MFlushEnd \/ MStartKA \/ MRecv \/ MRecvNil \/ MReset \/ MClose
   \/ MEncodeFail \/ MPanicClose \/ MPFlushBegin \/ MPFlushEnd
   \/ Tick \/ KPingBegin \/ KPingEnd \/ KFlushBegin \/ KFlushEnd \/ KStop
 MmNext ==
   \/ MMRecvAdd \/ MMRecvNil \/ MMDoneSig \/ MMDoneFlush \/ MMTick \/ MMFlushTick \/ MMTickerStop
-Next == SseNext \/ MmNext \/ MBlobBegin \/ MBlobEnd \/ ServerCancel \/ FinBegin \/ FinEnd \/ Disconnect \/ NextRequest
+Next == SseNext \/ MmNext \/ MBlobBegin \/ MBlobEnd \/ ServerCancel \/ FinBegin \/ FinEnd \/ Disconnect \/ Deadline \/ NextRequest
 
 \* gqlgen's and net/http's own steps are fair, and so is the payload source
 \* (it yields its next payload or ends; it ends promptly once its context is
 \* done).  Ticks and the client are not.
 Fairness ==
-  /\ WF_vars(MWriteBegin) /\ WF_vars(MWriteEnd) /\ WF_vars(MFlushBegin) /\ WF_vars(MFlushEnd)
+  /\ WF_vars(MWriteBegin) /\ WF_vars(MWriteDropped) /\ WF_vars(MWriteEnd) /\ WF_vars(MFlushBegin) /\ WF_vars(MFlushEnd)
   /\ WF_vars(MStartKA) /\ WF_vars(MRecv) /\ WF_vars(MRecvNil) /\ WF_vars(MReset) /\ WF_vars(MClose)
   /\ WF_vars(MEncodeFail) /\ WF_vars(MPanicClose) /\ WF_vars(MPFlushBegin) /\ WF_vars(MPFlushEnd)
   /\ WF_vars(MBlobBegin) /\ WF_vars(MBlobEnd)
@@ -548,15 +591,20 @@ CompleteLast ==
   kind = "sse" => \A i \in 1..Len(sink) :
                      /\ (sink[i].op = "B" /\ sink[i].k = "complete") => i >= Len(sink) - 1
                      /\ IsE(sink[i], "complete") => i = Len(sink)
-\* a stream the client did not abandon is complete
+\* the request met its payload that cannot be encoded (a source that ended early on a cancelled context did not)
+MetFail == failAt > 0 /\ got >= failAt
+\* a stream the client did not abandon is complete: EVERY payload the operation produced (all n of them,
+\* unless the source itself ended early because its context was done - MRecvNil's guard) is on the wire,
+\* then `complete` - also when the request context was cancelled server-side (Deadline) on the way
 SseComplete ==
-  (kind = "sse" /\ mpc = "returned" /\ ~disc /\ failAt = 0) =>
+  (kind = "sse" /\ mpc = "returned" /\ ~disc /\ ~MetFail) =>
      /\ Len(sink) >= 2 /\ IsE(sink[Len(sink)], "complete")
-     /\ Len(Nexts) = n
+     /\ Len(Nexts) = got
+     /\ (got = n \/ cancelled)
 \* the stream of a request whose failAt-th payload cannot be encoded, as the code serves it today: every
 \* earlier payload, then the recovered panic's bare error object; no `complete`
 SseFailed ==
-  (kind = "sse" /\ mpc = "returned" /\ ~disc /\ failAt > 0) =>
+  (kind = "sse" /\ mpc = "returned" /\ ~disc /\ MetFail) =>
      /\ Len(sink) >= 2 /\ IsE(sink[Len(sink)], "blob")
      /\ Len(Nexts) = failAt - 1
      /\ \A i \in 1..Len(sink) : sink[i].k # "complete"
@@ -590,12 +638,18 @@ RECURSIVE Ids(_, _)
 Ids(s, i) == IF i > Len(s) THEN <<>> ELSE (IF s[i].k \in {"init", "incr"} THEN s[i].ids ELSE <<>>) \o Ids(s, i + 1)
 MmOrder == kind = "mm" => LET d == Ids(sink, 1) IN \A j \in 1..Len(d) : d[j] = j - 1
 MmNoEmpty == kind = "mm" => \A i \in 1..Len(sink) : sink[i].k = "incr" => sink[i].ids # <<>>
+\* every payload the operation produced is on the wire (also after a server-side cancellation), and a
+\* response whose last payload (hasNext:false) was produced ends with the closing boundary.  (A source that
+\* ends early on a cancelled context after saying hasNext:true leaves the body without one: its own doing.)
 MmComplete ==
-  (kind = "mm" /\ mpc = "returned" /\ ~disc /\ failAt = 0) => (MmState = "s4" /\ Len(Ids(sink, 1)) = n + 1)
+  (kind = "mm" /\ mpc = "returned" /\ ~disc /\ ~MetFail) =>
+     /\ Len(Ids(sink, 1)) = got
+     /\ (got = n + 1 \/ cancelled)
+     /\ (got = n + 1 => MmState = "s4")
 \* a request with a payload that cannot be encoded: the parts flushed before it are intact and in order, the
 \* payload itself (and what shared its flush) never arrives, the body ends with the bare error object
 MmFailed ==
-  (kind = "mm" /\ mpc = "returned" /\ ~disc /\ failAt > 0) =>
+  (kind = "mm" /\ mpc = "returned" /\ ~disc /\ MetFail) =>
      /\ MmState = "s5"
      /\ \A j \in 1..Len(Ids(sink, 1)) : Ids(sink, 1)[j] + 1 < failAt
 
